@@ -45,6 +45,10 @@ structure Tables where
   changeName : List (String × String)
   posts : List ((String × String) × List String)
   observes : List (String × String × String × String)
+  /-- (class, method) ↦ "same" (every post behind a test) / "none" (a post is reached unconditionally) -/
+  guards : List ((String × String) × String) := []
+  /-- (class, method) ↦ names destroyed by a direct `destroyRepresentation` call ("*": computed name) -/
+  destroys : List ((String × String) × List String) := []
 deriving Repr, Inhabited
 
 /-- notifications method `m` of class `c` can post on self (no entry: none) -/
